@@ -6,7 +6,7 @@ from .. import gen, l4, scen
 
 def run(ctx):
     quick = ctx.tier == "quick"
-    n, nsteps = (16, 7) if quick else (500, 16)
+    n, nsteps = (40, 8) if quick else (500, 16)
     cases = []
     for t in range(n):
         steps, marks = scen.rand_history(ctx.rng, nsteps)
